@@ -2,6 +2,7 @@
 from __future__ import annotations
 
 import ast
+import copy
 
 from .core import Result, finding, norm_construct
 from .model import Repo
@@ -229,17 +230,38 @@ def check_regkey(prop: str, res: Result, repo: Repo):
     vt = repo.func("hexital.utils.timeframe", "validate_timeframe")
     cm = repo.method("hexital.core.candle_manager", "CandleManager", "__init__")
 
-    def forms(fn, target_pred, param):
+    class _Sub(ast.NodeTransformer):
+        def __init__(self, name, val):
+            self.name, self.val = name, val
+
+        def visit_Name(self, node):
+            return copy.deepcopy(self.val) if node.id == self.name and isinstance(node.ctx, ast.Load) and self.val is not None else node
+
+    def forms(fn, param, sink):
+        """spellings of the key, path by path: the value that reaches `sink` ('return' or an attribute target) with earlier
+        re-assignments of the parameter substituted; the unchanged parameter itself is not a spelling"""
         out = set()
-        for n in ast.walk(fn.node):
-            if isinstance(n, ast.Assign) and any(target_pred(t) for t in n.targets):
-                out.add(ast.unparse(n.value).replace(param, "<tf>"))
+        for path in stmt_paths(fn.node.body):
+            if path and isinstance(path[-1], ast.Raise):
+                continue
+            cur, got = None, None
+            for item in path:
+                if isinstance(item, ast.Assign):
+                    v = _Sub(param, cur).visit(copy.deepcopy(item.value))
+                    if any(isinstance(t, ast.Name) and t.id == param for t in item.targets):
+                        cur = v
+                    if sink != "return" and any(ast.unparse(t) == sink for t in item.targets):
+                        got = v
+                elif isinstance(item, ast.Return) and sink == "return" and item.value is not None:
+                    got = _Sub(param, cur).visit(copy.deepcopy(item.value))
+            if got is not None and ast.unparse(got) != param:
+                out.add(ast.unparse(got).replace(param, "<tf>"))
         return out
 
     vparam = next((a.arg for a in vt.node.args.args), "timeframe")
-    vforms = forms(vt, lambda t: isinstance(t, ast.Name) and t.id == vparam, vparam)
+    vforms = forms(vt, vparam, "return")
     mparam = "timeframe"
-    mforms = forms(cm, lambda t: ast.unparse(t) == "self.timeframe", mparam)
+    mforms = forms(cm, mparam, "self.timeframe")
     if mforms == {"validate_timeframe(<tf>)"} or (mforms and mforms == vforms):
         res.ok(rule, {"indicator side": sorted(vforms), "manager side": sorted(mforms), "why": "same spelling on both sides of the registry"}, nontrivial="regkey")
     else:
@@ -376,7 +398,7 @@ def check_lifespan_flow(prop: str, res: Result, repo: Repo):
     else:
         res.fail(rule, finding(prop, rule, cm, st[0] if st else cm.node, "CandleManager must keep the configured lifespan unchanged (self.candles_lifespan = <parameter>): a converted / reduced value changes which candles are retained", construct="CandleManager.__init__: candles_lifespan"))
     # timedelta components are never a substitute for the whole span
-    for mod in ("hexital.core.candle_manager", "hexital.utils.timeframe", "hexital.core.hexital"):
+    for mod in ["hexital.core.candle_manager", "hexital.utils.timeframe", "hexital.core.hexital"] + sorted(m for m in repo.modules if m.startswith("hexital.utils.") and m != "hexital.utils.timeframe"):
         mi = repo.module(mod)
         for n in ast.walk(mi.tree):
             if isinstance(n, ast.Attribute) and n.attr in ("seconds", "microseconds") and isinstance(n.ctx, ast.Load) and not (isinstance(n.value, ast.Name) and n.value.id in ("self",)):
